@@ -14,10 +14,10 @@ LOG=/tmp/seedconfirm/$NAME.log; : > $LOG
 cd $W
 # 1. demo passes without the patch
 cp $OUT/demo.rs tests/demo.rs
-cargo test --offline --test demo >>$LOG 2>&1; R_CLEAN=$?
+cargo test --offline ${DEMO_FLAGS:-} --test demo >>$LOG 2>&1; R_CLEAN=$?
 # 2. apply patch; existing suite passes (demo moved aside), demo fails
 git apply $OUT/patch.diff >>$LOG 2>&1 || { echo "PATCH DOES NOT APPLY" | tee -a $LOG; }
-cargo test --offline --test demo >>$LOG 2>&1; R_PATCHED=$?
+cargo test --offline ${DEMO_FLAGS:-} --test demo >>$LOG 2>&1; R_PATCHED=$?
 mv tests/demo.rs /tmp/seedconfirm/$NAME.demo.rs
 cargo test --offline >>$LOG 2>&1; R_SUITE=$?
 echo "RESULT $NAME demo_without_patch_exit=$R_CLEAN demo_with_patch_exit=$R_PATCHED suite_with_patch_exit=$R_SUITE" | tee -a $LOG
